@@ -77,24 +77,28 @@ Fixpoint consume_string (b : bytes) (hexleft : nat) (esc : bool) (s : pst) : jre
 Fixpoint skip_digits (b : bytes) : bytes :=
   match b with c :: b' => if is_digit c then skip_digits b' else b | [] => [] end.
 
+Definition drop_opt (k : byte) (b : bytes) : bytes :=
+  match b with c :: b' => if c =? k then b' else b | [] => b end.
+Definition drop_sign (b : bytes) : bytes :=
+  match b with d :: b' => if (d =? 43) || (d =? 45) then b' else b | [] => b end.
+
 Definition consume_number (b : bytes) (s : pst) : jres :=
-  let b0 := b in
-  let b1 := match b with c :: b' => if c =? 45 then b' else b | [] => b end in
+  let b1 := drop_opt 45 b in
   let b2 := skip_digits b1 in
   let got1 := negb (Nat.eqb (length b2) (length b1)) in
-  let b3 := match b2 with c :: b' => if c =? 46 then b' else b2 | [] => b2 end in
+  let b3 := drop_opt 46 b2 in
   let b4 := skip_digits b3 in
   let got2 := got1 || negb (Nat.eqb (length b4) (length b3)) in
   match b4 with
   | c :: b5 =>
     if got2 && ((c =? 101) || (c =? 69)) then
-      let b6 := match b5 with d :: b' => if (d =? 43) || (d =? 45) then b' else b5 | [] => b5 end in
+      let b6 := drop_sign b5 in
       let b7 := skip_digits b6 in
       let got3 := negb (Nat.eqb (length b7) (length b6)) in
-      let s' := bump (length b0 - length b7) s in
+      let s' := bump (length b - length b7) s in
       if got3 then (Some b7, s') else (None, s')
-    else let s' := bump (length b0 - length b4) s in if got2 then (Some b4, s') else (None, s')
-  | [] => let s' := bump (length b0) s in if got2 then (Some [], s') else (None, s')
+    else let s' := bump (length b - length b4) s in if got2 then (Some b4, s') else (None, s')
+  | [] => let s' := bump (length b) s in if got2 then (Some [], s') else (None, s')
   end.
 
 (* ---- queries ---- *)
